@@ -731,6 +731,17 @@ def raw_case(ctx, case):
                     data = R.build_retry(sut._version or R.V1, dcid, bytes([0x5A] * 8), bytes(inp[1]), odcid)
                 except Exception:  # noqa
                     data = b""
+            elif kind == "vn":
+                # a Version Negotiation packet with the right connection IDs (anyone who saw a packet of the connection can write one)
+                from vlib import refquic as R
+
+                try:
+                    cur = sut._version or R.V1
+                    other = R.V2 if cur == R.V1 else R.V1
+                    versions = {"current": [cur], "current+other": [cur, other], "other": [other], "none": [], "unknown": [0x1A2A3A4A], "many": [0x0A0A0A0A + i for i in range(300)]}[inp[1]]
+                    data = R.build_version_negotiation(sut.host_cid, sut._peer_cid.cid if inp[2] else bytes(8), versions)
+                except Exception:  # noqa
+                    data = b""
             elif kind == "close":
                 # the application closes; whatever the network did before, the transmit calls must keep working
                 guard("close", sut.close, error_code=inp[1], reason_phrase=inp[2])
@@ -792,6 +803,7 @@ def raw_strategy():
     inp = st.one_of(
         st.tuples(st.just("retry"), st.sampled_from([0, 16, 100, 1000, 1100, 1140, 1150, 1160, 1200, 3000]), st.booleans()),
         st.tuples(st.just("close"), st.sampled_from([0, 0x100]), st.sampled_from(["", "bye", "x" * 2000])),
+        st.tuples(st.just("vn"), st.sampled_from(["current", "current+other", "other", "none", "unknown", "many"]), st.booleans()),
         st.tuples(st.just("bytes"), rand),
         st.tuples(st.just("genuine"), st.integers(0, 20)),
         st.tuples(st.just("mutated"), st.integers(0, 20), mut),
